@@ -48,6 +48,9 @@ RATES = """RATES
  30 SAVE moles
  -end
 """
+# a pH-stat phase for the "alternative formula" form of EQUILIBRIUM_PHASES (the reactant added or removed is the
+# alternative formula, not the phase); defined once, with the rates
+RATES += "PHASES\n Fix_pH\n H+ = H+\n log_k 0\n"
 SYS_ELTS = ["Na", "Ca", "Sr", "Mg", "K", "Cl", "C", "S", "N", "H", "O"]
 PUNCH = ("SELECTED_OUTPUT 1\n -reset false\n -high_precision true\nUSER_PUNCH 1\n -headings " + " ".join("sys_" + e for e in SYS_ELTS) +
          "\n 10 PUNCH " + ", ".join('SYS("%s")' % e for e in SYS_ELTS) + "\n")
@@ -97,6 +100,11 @@ ATTACH = {
     "ki:calcite": ("ki", "KINETICS 1\n Calcite\n -m 0.01\n -m0 0.01\n -parms 50 0.6\n -tol 1e-8\n -steps 3600 in 2 steps\n"),
     "ki:zero": ("ki", "KINETICS 1\n Zero\n -formula Na2SO4 1 H2O 10\n -m 0.002\n -parms 1e-6\n -tol 1e-8\n -steps 600\n"),
 }
+# ops of C02's own alphabet only (C03 and C10 import ATTACH / alphabet() and have no use for a pH-stat):
+PHSTAT = {
+    "pp:phstat-base": ("pp", "EQUILIBRIUM_PHASES 1\n Fix_pH -9.5 NaOH 10\n"),
+    "pp:phstat-acid": ("pp", "EQUILIBRIUM_PHASES 1\n Fix_pH -4.0 HCl 10\n"),
+}
 KIN_STEPS = {"ki:calcite": 2, "ki:zero": 1}
 # a second initial cell that already holds one reactant of every kind (definitions only - no step has been run)
 FULL = ["pp:calcite+co2", "ex:X-equil", "su:ddl-equil", "ga:fixV", "ss:ideal", "ki:calcite"]
@@ -124,7 +132,9 @@ MIXES = {"mix:half": {1: 0.5, 2: 0.5}, "mix:1+q2": {1: 1.0, 2: 0.25}}
 UNITS = {"mmol": 1e-3, "moles": 1.0}
 
 
-def alphabet(sub="all"):
+def alphabet(sub="all", phstat=False):
+    if phstat:
+        return alphabet(sub) + list(PHSTAT)
     ops = []
     for r in REACTANTS:
         for f in STEPFORMS:
@@ -150,7 +160,9 @@ def op_texts(op, mode, present, kin):
     defs = None
     lines = []
     spec = {"reaction": None, "mix": None, "incremental": False, "rsteps": 1}
-    if op in ATTACH:
+    if op in PHSTAT:
+        defs = PHSTAT[op][1]
+    elif op in ATTACH:
         defs = ATTACH[op][1]
     if op.startswith("rx:"):
         _, r, f = op.split(":")
@@ -407,6 +419,8 @@ def run_history(s, init, mode, ops, judge_from=None):
         judge_from = len(ops) - 1
     last = None
     for i, op in enumerate(ops):
+        if op in PHSTAT:
+            present.add("pp")
         if op in ATTACH:
             present.add(ATTACH[op][0])
             if ATTACH[op][0] == "ki":
@@ -587,7 +601,7 @@ def run(tier):
     ]
     pool = core.Pool()
     stats = {"completed": 0, "not_completed": 0, "worst": 0.0, "cells": {}, "nc_samples": [], "diag": 0, "reported": set(), "dl_first_step": 0, "deaths": 0, "unreplayed": 0}
-    allops = alphabet()
+    allops = alphabet(phstat=True)
     if tier == "quick":
         dl = core.Deadline(150)
         plan = [("full alphabet", "plain", m, allops, 2) for m in ("use", "cells")] + \
